@@ -362,6 +362,11 @@ def stub_size_in_base(ex, nc, args):
         return ex.env['force_intdigits']
     x = deref_all(args[0]).fields[0]
     base = args[1]
+    if is_conc(simp(x)) and is_conc(simp(base)):
+        xv, bv, d = abs(int(simp(x))), int(simp(base)), 1
+        while xv >= bv ** d:
+            d += 1
+        return d + (ex.choose(2, 'size_in_base over-estimates by one') if xv else 0)
     if ex.branch(n_eq(x, 0), 'int part is zero'):
         return 1
     d = 1
